@@ -1,3 +1,3 @@
 #!/bin/sh
 # replays this counterexample against the real build
-cd /tmp/dbg_x && VERIF_SCRIPT=/verif/replays/C13/VHarnessSigAllSwapHTLC_6df59534_0/script.json VERIF_RAW_SALT=0 GOFLAGS=-mod=mod GOPROXY=off go test -vet=off -count=1 -overlay /verif/replays/C13/VHarnessSigAllSwapHTLC_6df59534_0/overlay.json -run ^TestVerifReplay_VHarnessSigAllSwapHTLC$ -v ./mint
+cd /tmp/seedrepo_C13b && VERIF_SCRIPT=/verif/replays/C13/VHarnessSigAllSwapHTLC_6df59534_0/script.json VERIF_RAW_SALT=0 GOFLAGS=-mod=mod GOPROXY=off go test -vet=off -count=1 -overlay /verif/replays/C13/VHarnessSigAllSwapHTLC_6df59534_0/overlay.json -run ^TestVerifReplay_VHarnessSigAllSwapHTLC$ -v ./mint
